@@ -321,8 +321,8 @@ def plan(tier):
     return [
         Task("masks", t_masks),
         Task("masks_random", t_masks_random, shards=1 if q else 8, n=3000 if q else 100000),
-        Task("text", t_text, shards=3 if q else 16, n=1000 if q else 30000),
+        Task("text", t_text, shards=3 if q else 16, n=1000 if q else 15000),
         Task("text_long", t_text_long, shards=3 if q else 6, n=12000 if q else 30000),
-        Task("collide", t_collide, shards=3 if q else 16, n=1700 if q else 40000),
+        Task("collide", t_collide, shards=3 if q else 16, n=1700 if q else 20000),
         Task("bulk", t_bulk, shards=3 if q else 8, n=1 if q else 4, size=24000 if q else 60000),
     ]
